@@ -10,6 +10,7 @@
 #include "romea_core_common/regression/ransac/RansacModel.hpp"
 #include "romea_core_common/regression/ransac/RansacIterations.hpp"
 #include "romea_core_common/regression/leastsquares/NLSE.hpp"
+#include "romea_core_common/regression/leastsquares/MEstimator.hpp"
 #include "romea_core_common/log/SimpleFileLogger.hpp"
 #include "romea_core_common/math/EulerAngles.hpp"
 #include "romea_core_common/math/Algorithm.hpp"
@@ -158,6 +159,27 @@ static void logger(vh::Rng & r, vh::Out & out, bool open)
 
 static void misc(vh::Rng & r, vh::Out & out)
 {
+  {
+    // MEstimator (median / MAD / Huber weights) on integer residuals, one object reused over calls of different sizes
+    long long sd = r.pick(std::vector<long long>{1, 2, 5});
+    MEstimator<double> est((double)sd);
+    int calls = (int)r.range(1, 4), nprev = 1;
+    for (int c = 0; c < calls; ++c) {
+      // sizes never shrink on one object: a smaller size after a larger one compares vectors of different lengths inside
+      // computeWeights (Eigen assertion in builds without NDEBUG) - recorded in DESIGN.md, outside the listed properties
+      int n = std::max(nprev, (int)r.range(1, 10));
+      nprev = n;
+      Eigen::VectorXd res(n);
+      IV rs;
+      bool spread = r.coin();
+      for (int j = 0; j < n; ++j) {long long v = spread ? r.range(-20, 20) : r.range(-3, 3); res(j) = (double)v; rs.push_back(v);}
+      double ratio = r.coin() ? est.computeWeights(res) : est.computeWeights(res, 0);
+      // (getWeights() is declared in the header but defined nowhere in the library, so only the returned share is observable)
+      bool ok = true;
+      long long cnt = vh::proj(ratio * n, ok, 1e-6);
+      out.put(vh::Ev("mest").i("sd", sd).vec("r", rs).i("cnt", cnt).b("ex", ok));
+    }
+  }
   {
     long long k = r.range(-15, 15);
     double v = (double)k * (M_PI / 4);
